@@ -23,9 +23,11 @@ class AGen(progs.Gen):
 
     def _pick_up(self, pred=None):
         r = self.r
+        if pred is None:
+            pred = lambda k: k not in ('dict', 'opaque')
         cands = [n['id'] for n in self.nodes if n['op'] not in ('sink', 'sink_flush')
                  and n['id'] not in self.batchy
-                 and (pred is None or pred(self.kind[n['id']]))]
+                 and pred(self.kind[n['id']])]
         if not cands:
             return None
         if r.random() < 0.7:
@@ -34,7 +36,7 @@ class AGen(progs.Gen):
 
     def _multi_cands(self):
         return [n['id'] for n in self.nodes if n['op'] not in ('sink', 'sink_flush')
-                and n['id'] not in self.batchy]
+                and n['id'] not in self.batchy and self.kind[n['id']] not in ('dict', 'opaque')]
 
     def _svc(self):
         r = self.r
